@@ -40,17 +40,23 @@ def lc_unit():
     for n in (0, 1, 47, 48, 49, 66):
         hs.append(Harness(f"signing_key_codec_{n}", ["C08", "C04"], complete=(n <= 48), bound=f"all byte strings of length {n}",
                           functions=f("from_sec1_bytes", "encode", "compressed_pub_key"),
-                          desc="SigningKey::from_sec1_bytes accepts exactly 0<k<n; encode == pad48(k); decode(encode(k)) == k; public half == k*G; no leak"))
-    hs.append(Harness("signing_key_clone_h", ["C08", "C04"], functions=f("clone", "verifying_key", "encode", "compressed_pub_key"),
-                      desc="Clone / verifying_key: equal scalar and point, independent lifetimes, every object freed once"))
+                          desc="SigningKey::from_sec1_bytes accepts exactly 0<k<n; encode == pad48(k); no leak"))
+    hs.append(Harness("signing_key_reencode_h", ["C08"], functions=f("from_sec1_bytes", "encode", "compressed_pub_key"),
+                      desc="decode(encode(k)) == k; public half == k*G"))
+    hs.append(Harness("signing_key_clone_h", ["C08", "C04"], functions=f("clone", "encode", "compressed_pub_key"),
+                      desc="Clone: equal scalar and point, independent lifetime, every object freed once"))
+    hs.append(Harness("verifying_key_of_h", ["C08", "C04"], functions=f("verifying_key", "clone", "from_point", "compressed_pub_key"),
+                      desc="verifying_key / Clone for VerifyingKey: same point, independent lifetime, every object freed once"))
     for n in (0, 1, 2, 48, 49, 50, 96, 97, 98):
         hs.append(Harness(f"verifying_key_decode_{n}", ["C08", "C04"], bound=f"all byte strings of length {n}",
                           functions=f("from_sec1_bytes", "from_point", "compressed_pub_key", "clone"),
                           desc="whatever VerifyingKey::from_sec1_bytes accepts re-encodes / clones / drops without panic; identity rejected"))
     for v in (0, 3):
-        hs.append(Harness(f"sign_append_roundtrip_{v}", ["C01", "C04"], bound=f"vector prefix of {v} bytes; every (r,s) in [1,n-1]^2",
-                          functions=f("sign", "append_to_vec", "from_bytes", "verify"),
-                          desc="append_to_vec appends exactly pad48(r)||pad48(s) for EVERY signature; from_bytes inverts it; it verifies"))
+        hs.append(Harness(f"sign_append_{v}", ["C01", "C04"], bound=f"vector prefix of {v} bytes; every (r,s) in [1,n-1]^2",
+                          functions=f("sign", "append_to_vec"),
+                          desc="append_to_vec appends exactly pad48(r)||pad48(s) for EVERY signature sign can return; Err leaves the vector unchanged"))
+    hs.append(Harness("sign_bytes_verify_h", ["C01"], bound="every (r,s) in [1,n-1]^2", functions=f("sign", "from_bytes", "verify"),
+                      desc="from_bytes(pad48(r)||pad48(s)) == (r,s) and verifies under the signer's key"))
     for n in (0, 95, 96, 97):
         hs.append(Harness(f"signature_from_bytes_{n}", ["C04", "C01", "C02"], bound=f"all byte strings of length {n}",
                           functions=f("from_bytes", "append_to_vec", "verify"), desc="Signature::from_bytes: exact length, values, no leak"))
@@ -64,11 +70,142 @@ def lc_unit():
     hs.append(Harness("canary_lc_h", ["C01", "C04", "C08"], expect="fail"))
     return Unit(
         name="awslc_lc", members=["paseto-core", PKG], package=PKG,
-        inject=[(LC, ["units/common/pae_stub.rs", "units/awslc/lc.rs"])],
+        inject=[(LC, ["units/common/pae_stub.rs", "units/awslc/stubs.rs", "units/awslc/lc.rs"])],
         patches=MODELS, harness_path="lc::verif", allow_unsafe=True,
         kani_flags=FLAGS, dev_deps=DEV, harnesses=hs, assumptions=A_FFI, trusted=TRUSTED,
     )
 
 
+
+def core_unit(name, file, harness, path, hs, assume, stubs=False):
+    srcs = ["units/common/pae_stub.rs"] + (["units/awslc/stubs.rs"] if stubs else []) + [harness]
+    return Unit(
+        name=name, members=["paseto-core", PKG], package=PKG,
+        inject=[(file, srcs)], patches=MODELS, harness_path=path,
+        kani_flags=FLAGS, dev_deps=DEV, harnesses=hs, assumptions=assume, trusted=TRUSTED,
+    )
+
+
+def local_unit():
+    L = f"{SRC}/core/local.rs"
+    fl = [f"{L}::{f}" for f in ("dangerous_seal_with_nonce", "unseal", "keys", "kdf", "preauth_local", "nonce")] + [f"{SRC}/core/mod.rs::apply_keystream"]
+    B = "contents symbolic"
+    hs = [
+        Harness("seal_is_spec_0_0_0", ["C03", "C01"], complete=False, bound=f"|m|=0,|f|=0,|a|=0; {B}", functions=fl),
+        Harness("seal_is_spec_1_0_0", ["C03", "C01"], complete=False, bound=f"|m|=1,|f|=0,|a|=0; {B}", functions=fl),
+        Harness("seal_is_spec_3_2_1", ["C03", "C01"], complete=False, bound=f"|m|=3,|f|=2,|a|=1; {B}", functions=fl),
+        Harness("seal_is_spec_16_0_0", ["C03", "C01"], complete=False, bound=f"|m|=16 (one AES block),|f|=0,|a|=0; {B}", functions=fl),
+        Harness("seal_is_spec_17_0_0", ["C03", "C01"], complete=False, bound=f"|m|=17 (two AES blocks: counter-width obligation),|f|=0,|a|=0; {B}", functions=fl),
+        Harness("unseal_accepts_spec_0_0_0", ["C03", "C01"], complete=False, bound="|m|=0,|f|=0,|a|=0", functions=fl),
+        Harness("unseal_accepts_spec_3_2_1", ["C03", "C01"], complete=False, bound="|m|=3,|f|=2,|a|=1", functions=fl),
+        Harness("unseal_accepts_spec_17_0_0", ["C03", "C01"], complete=False, bound="|m|=17 (two AES blocks: counter-width obligation),|f|=0,|a|=0", functions=fl),
+        Harness("roundtrip_own_nonce_1_1_1", ["C01", "C16"], complete=False, bound="|m|=1,|f|=1,|a|=1", functions=fl),
+        Harness("roundtrip_own_nonce_0_0_0", ["C01", "C16"], complete=False, bound="|m|=0,|f|=0,|a|=0", functions=fl),
+        Harness("roundtrip_own_nonce_17_0_0", ["C01", "C16"], complete=False, bound="|m|=17,|f|=0,|a|=0", functions=fl),
+        Harness("unseal_rejects_tamper_0_0_0", ["C02", "C12"], complete=False, bound="|m|=0,|f|=0,|a|=0; flip position and bit symbolic", functions=fl, timeout=1800),
+        Harness("unseal_rejects_tamper_1_1_1", ["C02", "C12"], complete=False, bound="|m|=1,|f|=1,|a|=1; flip position and bit symbolic", functions=fl, timeout=1800),
+        Harness("unseal_rejects_boundary_shift_1", ["C02"], complete=False, bound="|m|=1, footer+assertion 2 bytes", functions=fl),
+        Harness("canary_wrong_aad_1", ["C01", "C02", "C03", "C12"], expect="fail"),
+        Harness("local_key_codec_h", ["C08", "C10", "C04"], complete=False, bound="key byte strings of length 0..=40", functions=[f"{L}::decode", f"{L}::encode"]),
+        Harness("local_key_random_h", ["C16"], functions=[f"{L}::random"]),
+        Harness("nonce_fail_closed_h", ["C16"], functions=[f"{L}::nonce"]),
+    ]
+    for n in (0, 47, 79, 80, 82):
+        hs.append(Harness(f"unseal_short_{n}", ["C04", "C12"], complete=False, bound=f"payload length {n}", functions=[f"{L}::unseal"]))
+    return core_unit("awslc_local", L, "units/awslc/local.rs", "core::local::verif", hs, A_RS)
+
+
+def public_unit():
+    P = f"{SRC}/core/public.rs"
+    fl = [f"{P}::{f}" for f in ("dangerous_seal_with_nonce", "unseal", "preauth_public", "unsealing_key", "nonce")] + [f"{LC}::{f}" for f in ("sign", "verify", "append_to_vec", "from_bytes", "compressed_pub_key")]
+    kd = [f"{P}::decode", f"{P}::encode", f"{LC}::from_sec1_bytes", f"{LC}::compressed_pub_key", f"{LC}::encode"]
+    hs = [
+        Harness("sign_is_spec_0_0_0", ["C03", "C01"], complete=False, bound="|m|=0,|f|=0,|a|=0; contents symbolic; every (r,s) in [1,n-1]^2", functions=fl, timeout=1800),
+        Harness("sign_is_spec_3_2_1", ["C03", "C01"], complete=False, bound="|m|=3,|f|=2,|a|=1; contents symbolic; every (r,s) in [1,n-1]^2", functions=fl, timeout=1800),
+        Harness("verify_accepts_spec_0_0_0", ["C03", "C01"], complete=False, bound="|m|=0,|f|=0,|a|=0", functions=fl + kd, timeout=1800),
+        Harness("verify_accepts_spec_3_2_1", ["C03", "C01"], complete=False, bound="|m|=3,|f|=2,|a|=1", functions=fl + kd, timeout=1800),
+        Harness("roundtrip_own_nonce_0_0_0", ["C01"], complete=False, bound="|m|=0,|f|=0,|a|=0; every (r,s) in [1,n-1]^2", functions=fl, timeout=1800),
+        Harness("roundtrip_own_nonce_1_1_1", ["C01"], complete=False, bound="|m|=1,|f|=1,|a|=1; every (r,s) in [1,n-1]^2", functions=fl, timeout=1800),
+        Harness("verify_rejects_tamper_0_0_0", ["C02", "C12"], complete=False, bound="|m|=0,|f|=0,|a|=0; flip position and bit symbolic", functions=fl + kd, timeout=1800),
+        Harness("verify_rejects_tamper_1_1_1", ["C02", "C12"], complete=False, bound="|m|=1,|f|=1,|a|=1; flip position and bit symbolic", functions=fl + kd, timeout=1800),
+        Harness("verify_rejects_boundary_shift_1", ["C02"], complete=False, bound="|m|=1, footer+assertion 2 bytes", functions=fl),
+        Harness("verify_rejects_message_shift_h", ["C02"], complete=False, bound="message+footer 3 bytes", functions=fl),
+        Harness("canary_wrong_aad_1", ["C01", "C02", "C03", "C12"], expect="fail", timeout=1800),
+        Harness("public_key_codec_49", ["C08", "C10", "C04"], complete=False, bound="all 49-byte strings", functions=kd),
+        Harness("public_key_codec_97", ["C08", "C10", "C04", "C09"], complete=False, bound="all 97-byte strings", functions=kd),
+        Harness("public_key_codec_1", ["C08", "C10", "C04"], complete=False, bound="all 1-byte strings (incl. the identity encoding 00)", functions=kd),
+        Harness("public_key_codec_h", ["C08", "C10", "C04"], complete=False, bound="all strings of length 0..=100 other than 1, 49, 97", functions=kd),
+        Harness("public_key_roundtrip_h", ["C08"], functions=kd + [f"{P}::unsealing_key"]),
+        Harness("public_key_paserk_identity_h", ["C04", "C08"], functions=kd, desc="KeyText(00) -> PublicKey -> expose_key (first step of Display / id)"),
+        Harness("secret_key_codec_48", ["C08", "C10", "C04"], functions=kd + [f"{P}::unsealing_key", f"{LC}::clone"]),
+        Harness("secret_key_codec_h", ["C08", "C10", "C04"], complete=False, bound="all strings of length 0..=100 other than 48", functions=kd),
+        Harness("secret_key_random_h", ["C16"], functions=[f"{P}::random"]),
+    ]
+    for n in (0, 95, 96, 98):
+        hs.append(Harness(f"verify_short_{n}", ["C04", "C12"], complete=False, bound=f"payload length {n}", functions=[f"{P}::unseal"]))
+    return core_unit("awslc_public", P, "units/awslc/public.rs", "core::public::verif", hs, A_FFI + A_RS[:1] + A_RS[2:], stubs=True)
+
+
+def pie_unit():
+    F = f"{SRC}/core/pie_wrap.rs"
+    fn = [f"{F}::{f}" for f in ("pie_wrap_key", "pie_unwrap_key", "wrap_keys", "kdf", "auth")]
+    hs = []
+    for k in (32, 48):
+        b = f"wrapped key length {k}; contents, nonce symbolic"
+        hs += [Harness(f"wrap_is_spec_{k}", ["C07", "C05", "C16"], complete=False, bound=b, functions=fn),
+               Harness(f"unwrap_accepts_spec_{k}", ["C07", "C05"], complete=False, bound=b, functions=fn),
+               Harness(f"roundtrip_{k}", ["C05", "C16"], complete=False, bound=b, functions=fn),
+               Harness(f"unwrap_rejects_tamper_{k}", ["C06"], complete=False, bound=b + "; flip position/bit symbolic (blob, wrapping key)", functions=fn, timeout=1800),
+               Harness(f"unwrap_rejects_relabel_{k}", ["C06", "C10"], complete=False, bound=b + "; header relabelled local<->secret", functions=fn)]
+    for n in (0, 47, 48, 79, 80, 113):
+        hs.append(Harness(f"unwrap_short_{n}", ["C04", "C06"], complete=False, bound=f"blob length {n}", functions=fn))
+    hs += [Harness("wrap_fail_closed_h", ["C16"], functions=fn), Harness("canary_inputs_h", ["C05", "C06", "C07"], expect="fail")]
+    return core_unit("awslc_pie", F, "units/awslc/pie.rs", "core::pie_wrap::verif", hs, A_RS[:3])
+
+
+def pbkw_unit():
+    F = f"{SRC}/core/pw_wrap.rs"
+    fn = [f"{F}::{f}" for f in ("pw_wrap_key", "pw_unwrap_key", "get_params", "wrap_keys", "kdf", "auth")]
+    hs = [Harness("wrap_is_spec_32_default", ["C07", "C05", "C16"], complete=False, bound="local key, default parameters (100000 iterations), 2-byte password", functions=fn),
+          Harness("wrap_is_spec_48_custom", ["C07", "C05", "C16"], complete=False, bound="secret key, 1000 iterations, 1-byte password", functions=fn)]
+    for k in (32, 48):
+        b = f"wrapped key length {k}; contents, salt, nonce symbolic"
+        hs += [Harness(f"unwrap_accepts_spec_{k}", ["C07", "C05"], complete=False, bound=b, functions=fn),
+               Harness(f"roundtrip_{k}", ["C05"], complete=False, bound=b, functions=fn),
+               Harness(f"unwrap_rejects_tamper_{k}", ["C06"], complete=False, bound=b + "; flip position/bit symbolic (blob, password)", functions=fn, timeout=1800),
+               Harness(f"unwrap_rejects_relabel_{k}", ["C06", "C10"], complete=False, bound=b + "; header relabelled local<->secret", functions=fn)]
+    for n in (0, 51, 52, 99, 100, 133):
+        hs.append(Harness(f"unwrap_short_{n}", ["C04", "C06"], complete=False, bound=f"blob length {n}, all parameter blocks", functions=fn))
+    hs += [Harness("wrap_fail_closed_h", ["C16"], functions=fn), Harness("canary_inputs_h", ["C05", "C06", "C07"], expect="fail")]
+    return core_unit("awslc_pbkw", F, "units/awslc/pbkw.rs", "core::pw_wrap::verif", hs, A_RS[:3])
+
+
+def pke_unit():
+    F = f"{SRC}/core/pke.rs"
+    fn = [f"{F}::{f}" for f in ("seal_key", "unseal_key", "seal_keys", "encode", "decode")] + [f"{LC}::diffie_hellman", f"{SRC}/core/public.rs::random"]
+    D = "drawn ephemeral scalar assumed in 1..n-1"
+    hs = [Harness("seal_is_spec_h", ["C07", "C05", "C16"], complete=False, bound=D, functions=fn),
+          Harness("seal_out_of_range_draw_h", ["C05", "C16"], functions=fn, desc="no assumption on the drawn ephemeral scalar"),
+          Harness("unseal_accepts_spec_h", ["C07", "C05"], functions=fn),
+          Harness("roundtrip_h", ["C05"], complete=False, bound=D, functions=fn),
+          Harness("unseal_rejects_tamper_h", ["C06"], functions=fn, timeout=1800),
+          Harness("seal_to_parsed_key_1", ["C04", "C08"], complete=False, bound="all 1-byte public key strings", functions=fn),
+          Harness("seal_fail_closed_h", ["C16"], complete=False, bound=D, functions=fn), Harness("pke_key_codec_h", ["C08"], functions=fn),
+          Harness("canary_inputs_h", ["C05", "C06", "C07"], expect="fail")]
+    for n in (0, 47, 96, 128, 129, 130):
+        hs.append(Harness(f"unseal_len_{n}", ["C04", "C06"], complete=False, bound=f"blob length {n}", functions=fn))
+    return core_unit("awslc_pke", F, "units/awslc/pke.rs", "core::pke::verif", hs, A_FFI + A_RS[:3], stubs=True)
+
+
+def id_unit():
+    F = f"{SRC}/core/mod.rs"
+    fn = [f"{F}::hash_key"]
+    hs = [Harness("id_is_spec_10", ["C13"], complete=False, bound="PASERK text of 10 bytes", functions=fn),
+          Harness("id_is_spec_1", ["C13"], complete=False, bound="PASERK text of 1 byte", functions=fn),
+          Harness("id_domain_separated_h", ["C13"], complete=False, bound="PASERK text of 10 bytes", functions=fn),
+          Harness("canary_inputs_h", ["C13"], expect="fail")]
+    return core_unit("awslc_id", F, "units/awslc/id.rs", "core::verif", hs, A_RS[:1])
+
+
 def units():
-    return [lc_unit()]
+    return [lc_unit(), local_unit(), public_unit(), pie_unit(), pbkw_unit(), pke_unit(), id_unit()]
